@@ -864,7 +864,7 @@ func (e *Engine) execPreparedStmts(ctx context.Context, tx *SQLTx, stmts []SQLSt
 			}
 		}
 
-		if currTx.Closed() {
+		if currTx.Closed() && !currTx.Cancelled() {
 			committedTxs = append(committedTxs, currTx)
 		}
 
